@@ -478,7 +478,7 @@ pub fn run(tier: Tier) -> i32 {
                 g.sort();
                 g
             });
-            if code != Some(0) || got.as_ref() != Some(&want) {
+            if !crate::binx::completed(code) || got.as_ref() != Some(&want) {
                 run.violation(Violation {
                     site: format!("binary:{}:entries-depend-on-co-selected-patterns", name),
                     input: format!("configuration optimizations={:?} vulnerabilities={:?} qa={:?} on {}", sel.0, sel.1, sel.2, fsx::describe(&tree)),
